@@ -81,3 +81,44 @@ def init_forwarding_rule(ctx, run, rule, classes=None):
                 run.fail(Finding(rule, sim.qualname, f"init_state given as a {'scalar' if form == 'scalar' else 'tuple'}: {bad[0]}"[:300],
                                  "the simulation does not start from the value the caller asked for", file=str(prog.modules[sim.module].path), line=sim.node.lineno,
                                  case="scalar" if form == "scalar" else "tuple"))
+
+
+def param_forwarding_rule(ctx, run, rule):
+    """simulate() hands the generator the instrument's own configuration: every constructor parameter the generator has a parameter of the
+    same name for (sigma, mu, kappa, ..., dt, engine) is passed as self.<name> on every path - a parameter left out falls back to the
+    generator's default and the paths follow another model than the one the instrument displays."""
+    from .report import Finding
+    prog = ctx.prog
+    classes = primary_classes(prog)
+    run.require(rule, len(classes))
+    for cls in classes:
+        short = cls.rsplit(".", 1)[-1]
+        init = prog.lookup_method(cls, "__init__")
+        own = [a.arg for a in init.node.args.args[1:] + init.node.args.kwonlyargs if a.arg not in ("cost", "dtype", "device")]
+        sim, facts = simulate_facts(ctx, cls, False)
+        bad = []
+        n = 0
+        for f in facts:
+            g = f["gen"]
+            if g is None:
+                bad.append("no generator call")
+                continue
+            callee = prog.functions.get(g["callee"])
+            if callee is None:
+                raise AnalysisError(f"{cls}.simulate: generator {g['callee']} not found")
+            gparams = [a.arg for a in callee.node.args.args + callee.node.args.kwonlyargs]
+            kw = dict(g["kwargs"])
+            for k_, v_ in zip(gparams, g["args"]):
+                kw[k_] = v_
+            for p in own:
+                if p not in gparams:
+                    continue
+                n += 1
+                v = kw.get(p, "<left to the generator's default>")
+                if not (isinstance(v, Sym) and v.name == "stock." + p):
+                    bad.append(f"{p} = {str(v)[:50]}")
+        bad = sorted(set(bad))
+        run.oblige(rule, f"{short}.simulate passes its own parameters to the generator", not bad and n > 0, "; ".join(bad) or f"{n} parameter bindings")
+        if bad or n == 0:
+            run.fail(Finding(rule, sim.qualname, "; ".join(bad)[:300] or "no parameter of the instrument reaches the generator", "the generator does not receive the instrument's own parameter: "
+                             "the paths follow another model / step size than the instrument displays", file=str(prog.modules[sim.module].path), line=sim.node.lineno))
